@@ -17,7 +17,7 @@ NA = {
 CHECKS = {
  "C01": ("scheme_sim", "exploration",
          "deterministic simulation: seeded request histories (refinable, non-refinable, invalid, re-initialising) against the real CombiScheme with invariant monitors and a Moebius-inversion reference model after every step",
-         "Seeded search over histories of update/init/query requests (all refinement orders and invalid-request classes reachable, d<=5, lmin<=3, lmax-lmin<=4, <=40 requests; the (d,lmin,lmax) grid is walked systematically first). After every request the statement's invariants are evaluated, the per-subspace inclusion-exclusion sums for every level vector of the bounding box, and the closed-form scheme at every (re-)initialisation. Sampling, not proof: a clean batch is evidence about the explored histories.",
+         "Seeded search over histories of update/init/query requests (all refinement orders and invalid-request classes reachable, d<=5, lmin<=3, lmax-lmin<=4, <=40 requests; the (d,lmin,lmax) grid is walked systematically first). After every request the statement's invariants are evaluated, the per-subspace inclusion-exclusion sums for every level vector of the bounding box, and the closed-form scheme at every (re-)initialisation - asked of a fresh non-adaptive object and of one long-lived non-adaptive object that answers closed-form requests with varying levels throughout the history. Sampling, not proof: a clean batch is evidence about the explored histories.",
          "Trusted: the harness' own invariant code and numpy integer arithmetic. No stub: CombiScheme runs real code.",
          "DESIGN.md section 5, C01"),
  "C03": ("dimwise_sim", "exploration",
@@ -32,7 +32,7 @@ CHECKS = {
          "DESIGN.md section 5, C04"),
  "C06": ("dimwise_sim", "exploration",
          "deterministic simulation: the real refinement containers under adversarial benefit schedules (ties, zeros, single-interval, all-equal), structure monitor and split-set prediction (reference interval model) after every refine()",
-         "Seeded search over benefit schedules and options (dim 1-4, margin, rebalancing, safety factor, versions). After every refinement step: tiling without gaps/overlaps in ascending order, shared end-point levels, end points level 0, binary level tree (also after rebalancing), coarsening level = lmax - max level >= 0, lmax >= deepest level, and the set of split intervals equals the prediction {benefit >= margin * max benefit} computed from the benefits read before the step (children = two halves at the midpoint). Sampling, not proof.",
+         "Seeded search over benefit schedules and options (dim 1-4, margin, rebalancing, safety factor, versions). After every refinement step: tiling without gaps/overlaps in ascending order, shared end-point levels, end points level 0, binary level tree (also after rebalancing), coarsening level = lmax - max level >= 0, lmax >= deepest level, and the set of split intervals equals the prediction {benefit >= margin * max benefit} computed from the benefits read before the step (children = two halves at the midpoint). A quarter of the histories are interrupted by a point limit and continued (continue_adaptive_refinement or a new driver call handed the returned container); the structure clauses are also evaluated at every evaluation and at the return of a driver call. Sampling, not proof.",
          "Trusted: harness monitors. Stubs: error-estimator answers (the seam the property quantifies over), integrand values, clock.",
          "DESIGN.md section 5, C06"),
  "C07": ("extendsplit_sim", "exploration",
@@ -52,7 +52,7 @@ CHECKS = {
          "DESIGN.md section 5, C13"),
  "C14": ("dimwise_sim+extendsplit_sim", "fault_enumeration",
          "deterministic simulation with fault injection: every crash point of each explored run is enumerated (stop by limits after evaluation k), with save / crash / restore (in-process and, thorough tier, in a fresh interpreter from the bytes only) and write faults (torn, short, ENOSPC, lost) on a simulated file system; oracle is the uninterrupted twin",
-         "For each seeded configuration the uninterrupted twin run defines evaluation indices 0..m; every k<m (sub-sampled above 10/16 and counted) is used as crash point with a fault kind drawn per (configuration,k). Final structure, scheme, lmax, point count (exact) and result (rounding bound) must equal the twin's; a restored instance must give bitwise the same interpolation, result and point count as the saved one; failed saves must raise and leave the live instance able to reach the twin's end state; incomplete files must be refused on restore.",
+         "Configurations: dimension-wise (trapezoidal and, in a quarter of those runs, Lagrange / B-spline / high-order global grids), extend-split, cell and StandardCombi with Integration, and the dimension-wise strategy with UncertaintyQuantification on the weighted grid and with DensityEstimation (reuse caches on or off). For each seeded configuration the uninterrupted twin run defines evaluation indices 0..m; every k<m (sub-sampled above 10/16 and counted) is used as crash point with a fault kind drawn per (configuration,k). Final structure, scheme, lmax, point count (exact) and result (rounding bound) must equal the twin's; a restored instance must give bitwise the same interpolation, result and point count as the saved one; failed saves must raise and leave the live instance able to reach the twin's end state; incomplete files must be refused on restore.",
          "Trusted: SimFS semantics, dill itself. Not injected: bit flips inside a successfully written pickle (no integrity promise in the property). Stubs: file system, integrand values, keyed estimator answers without evaluation counter (real estimators in a third of the runs), clock.",
          "DESIGN.md section 5, C14"),
  "C12": ("function_sim", "exploration",
@@ -67,7 +67,7 @@ CHECKS = {
          "DESIGN.md section 5, C18"),
  "C19": ("classification_sim", "exploration",
          "deterministic simulation: learn once on seeded data, then seeded histories of __call__ / test_data / evaluate / re-evaluation requests with data inside, partly outside and entirely outside the learned range; arg-max reference oracle under the learning-time scaling",
-         "Seeded search over learning configurations (2-4 classes, split percentage, even/uneven split, shuffle via the seeded global PRNG, standard or dimension-wise learning) and call histories. Oracle: positions are re-scaled by the harness with the range and factor reported at learning time; returned classes must be a maximiser of the learned per-class densities for exactly the in-range (and, for test_data, labelled) samples; out-of-range samples are absent and all-out data is refused; summaries (wrong, total, percentage) of test_data and evaluate() are recomputed; classes recorded for earlier data are a stable prefix and re-evaluating earlier data gives the same classes; a second learning call is refused.",
+         "Seeded search over learning configurations (2-4 classes, split percentage, even/uneven split, shuffle via the seeded global PRNG, standard or dimension-wise learning) and call histories. Oracle: positions are re-scaled by the harness with the range and factor reported at learning time; returned classes must be a maximiser of the learned per-class densities for exactly the in-range (and, for test_data, labelled) samples; out-of-range samples are absent and all-out data is refused; summaries (wrong, total, percentage) of test_data and evaluate() are recomputed; classes recorded for earlier data are a stable prefix and re-evaluating earlier data gives the same classes; after continue_dimension_wise_refinement the classes recorded for the held testing samples are maximisers of the refined densities; a second learning call is refused.",
          "Trusted: the density values returned by the learned combination objects (their correctness is C16/C17's subject), harness re-scaling. Stubs: clock; global PRNG seeded by the run.",
          "DESIGN.md section 5, C19"),
  "C17": ("de_reuse_sim", "exploration",
